@@ -13,6 +13,62 @@ COQC = {"bool": "CBool", "int8": "CI8", "int16": "CI16", "int32": "CI32", "int64
         "uint16": "CU16", "uint32": "CU32", "uint64": "CU64", "float32": "CF32", "float64": "CF64", "utf8": "CStr"}
 
 
+def text_corr(ctx, rnd):
+    """integers <-> decimal text: the implementation's astype(int -> utf8) and astype(utf8 -> int) against
+    Ndx/TextCast.v print_int / parse_int (for which parse (print z) = z is a theorem), inside Coq."""
+    cases = []
+    k = 12 if ctx.tier == "quick" else 80
+    for d in ops.INTS:
+        lo, hi = ops.IINFO[d]
+        vals = [lo, hi, 0, 1, hi - 1, hi // 2 + 1] + ([-1, lo + 1] if lo < 0 else []) + [rnd.randint(lo, hi) for _ in range(k)]
+        x = {"dtype": d, "shape": [len(vals)], "data": vals}
+        cases.append({"id": f"tx-{d}", "inputs": {"x": x}, "impl": "out = ndx.astype(x, ndx.utf8)", "oracle": None, "eager": True, "lazy_subsets": [{"names": ["x"]}],
+                      "meta": {"func": "astype", "src": d, "dst": "utf8", "dtype": d, "dclass": family.dclass(d)}})
+        sx = {"dtype": "utf8", "shape": [len(vals)], "data": ["s:" + str(v) for v in vals]}
+        cases.append({"id": f"tp-{d}", "inputs": {"x": sx}, "impl": f"out = ndx.astype(x, ndx.{d})", "oracle": None, "eager": True, "lazy_subsets": [{"names": ["x"]}],
+                      "meta": {"func": "astype", "src": "utf8", "dst": d, "dtype": "utf8", "dclass": "str"}})
+    res = core.run_cases("harness.h_ops", cases, workers=14, per_case_timeout=120)
+    pl, rl, kept = [], [], []
+    for c in cases:
+        r = res.get(c["id"]) or {}
+        outs = []
+        e = r.get("eager") or {}
+        if "ok" in e and "data" in e["ok"]:
+            outs.append(("eager", e["ok"]["data"]))
+        for t in r.get("traced", []):
+            for run_ in t.get("runs", []):
+                if "ok" in run_ and "data" in run_["ok"]:
+                    outs.append(("traced", run_["ok"]["data"]))
+        if not outs:
+            ctx.finding(family.attrs_of(c, "raises", "eager"), f"{c['impl']} on {c['meta']['src']} boundary values: {str(e)[:160]}", family.replay_of(c, r, "eager"))
+            continue
+        for mode, data in outs:
+            for vin, vout in zip(c["inputs"]["x"]["data"], data):
+                if c["id"].startswith("tx-"):
+                    pl.append(f'  (({vin})%Z, "{str(vout)[2:]}"%string)')
+                    kept.append((c, r, mode, vin, vout))
+                else:
+                    rl.append(f'  ("{vin[2:]}"%string, ({int(vout)})%Z)')
+                ctx.count(("text", c["id"], mode, vin), nontrivial=True)
+    src = ("From Coq Require Import List ZArith String Bool.\nFrom ND Require Import Ndx.TextCast Ndx.ReduceCorr.\nImport ListNotations.\n"
+           "Definition printed : list (Z * string) := [\n" + ";\n".join(pl) + "\n].\n"
+           "Definition parsed : list (string * Z) := [\n" + ";\n".join(rl) + "\n].\n"
+           "Definition p_ok (p : Z * string) : bool := String.eqb (print_int (fst p)) (snd p).\n"
+           "Definition r_ok (p : string * Z) : bool := match parse_int (fst p) with Some z => Z.eqb z (snd p) | None => false end.\n"
+           'Eval vm_compute in ("BAD"%string, bad_idx p_ok printed 0, bad_idx r_ok parsed 0).\n'
+           "Example text_correspondence : forallb p_ok printed = true /\\ forallb r_ok parsed = true.\nProof. split; vm_compute; reflexivity. Qed.\n")
+    f = ctx.work / "CorrText.v"
+    f.write_text(src)
+    ok, out = ctx.compile(f"T-io (in Coq): astype(int -> utf8) == print_int and astype(utf8 -> int) == parse_int on type extremes and random values of all 8 integer dtypes, eager and exported ({len(pl)} + {len(rl)} observations)", f, kind="tie")
+    if not ok:
+        flat = re.sub(r"\s+", " ", out)
+        m = re.search(r'\("BAD"(?:%string)?, \[(.*?)\], \[(.*?)\]\)', flat)
+        for i in (re.findall(r"\d+", m.group(1)) if m else [])[:6]:
+            c, r, mode, vin, vout = kept[int(i)]
+            ctx.finding(family.attrs_of(c, "text-mismatch", mode), f"astype({c['meta']['src']} -> utf8) of {vin} gives {vout!r} ({mode}); the decimal text is {vin}", family.replay_of(c, r, mode))
+    return ok
+
+
 def run(ctx):
     rnd = random.Random(ctx.seed)
     ctx.trusted += ["coq/Ndx/ElemSem.v cast_to as the semantics of onnxruntime's Cast on one element (validated by the in-Coq value correspondence)",
@@ -112,6 +168,7 @@ def run(ctx):
     # nullable can_cast must refuse (no NumPy counterpart): observation only
     for a, b, o in (res.get("ccn") or {}).get("rows", []):
         ctx.out_of_scope.append({"can_cast": [a, b], "observed": o})
+    text_corr(ctx, rnd)
     # NumPy sweep incl. strings, nullable, traced
     n = 400 if ctx.tier == "quick" else 3000
     cs = families.cast_cases(rnd, n)
